@@ -42,6 +42,9 @@ def final_spec(hist: dict) -> dict:
         sp['ops'].extend(copy.deepcopy(ph.get('ops', [])))
     last = hist['phases'][-1]
     sp['write'] = copy.deepcopy(last.get('write', {}))
+    for k in ('source', 'perm_seed', 'extra', 'struct_variant'):
+        if k in hist['base'].get('write', {}):
+            sp['write'][k] = hist['base']['write'][k]
     for i, a in (last.get('arrays') or {}).items():
         sp['ops'][int(i)]['data'] = copy.deepcopy(a)
     return sp
@@ -61,6 +64,10 @@ def run_history(hist: dict):
     path = harness.fresh_path()
     wout, data = None, None
     source = base.get('write', {}).get('source', 'inline')
+    shared = None
+    if hist.get('shared_data') and source != 'inline':
+        # ONE data object (dict / structured array / HDF5 path) made once and handed to every write of the history
+        shared = S.make_write_data(base, b, harness.scratch_dir())
     for pi, ph in enumerate(hist['phases']):
         for op in ph.get('ops', []):
             i = len(ops)
@@ -76,7 +83,9 @@ def run_history(hist: dict):
             fr = harness.execute(f, want_taps=False)
             log.append(('foreign', fr.wout[0]))
         spw = {'sul': base.get('sul', {}), 'lfs': base.get('lfs', [{}]), 'ops': ops, 'write': ph.get('write', {})}
-        data_arg = '__auto__'
+        data_arg = '__auto__' if shared is None else shared
+        spw['write'] = dict(spw['write'], source=source, **{k: v for k, v in base.get('write', {}).items()
+                                                             if k in ('perm_seed', 'extra', 'struct_variant')})
         if ph.get('arrays'):
             # this write gets its own data through the dict passed to write()
             import numpy as np
